@@ -89,16 +89,32 @@ func coqOptTraversal(t hcl.Traversal, info *hv.ValInfo) string {
 
 // travCase: expr is the subject expression (obtained from parsing `text`), ctx the scope.
 func (x *runner) travCase(expr hclsyntax.Expression, text, wrap string, ctx *hcl.EvalContext) {
+	// the whole case runs guarded: a static-analysis call that damages the expression (e.g. by writing
+	// into the traversal it shares with the expression) shows up as a panic in a LATER call on the same
+	// expression, and must be reported with this input rather than abort the run
+	if p := guard(func() { x.travCase0(expr, text, wrap, ctx) }); p != nil {
+		x.fail("panic", fmt.Sprint("static analysis followed by evaluation panicked: ", p), "trav\n"+text, nil)
+	}
+}
+
+func (x *runner) travCase0(expr hclsyntax.Expression, text, wrap string, ctx *hcl.EvalContext) {
 	input := "trav\n" + text
 	var trav, rel hcl.Traversal
 	var td, rd hcl.Diagnostics
 	var kw string
+	before := hv.DumpExprS(expr)
 	if p := guard(func() {
 		trav, td = hcl.AbsTraversalForExpr(expr)
 		rel, rd = hcl.RelTraversalForExpr(expr)
 		kw = hcl.ExprAsKeyword(expr)
 	}); p != nil {
 		x.fail("panic", fmt.Sprint("static analysis panicked: ", p), input, nil)
+		return
+	}
+	// static analysis is a VIEW: it must leave the expression as it was (the value returned may share
+	// storage with the expression, so writing into it changes what is evaluated afterwards)
+	if after := hv.DumpExprS(expr); after != before {
+		x.fail("static-analysis-mutates-expression", "the expression changed under AbsTraversalForExpr/RelTraversalForExpr/ExprAsKeyword: "+before+" => "+after, input, nil)
 		return
 	}
 	x.rep.Hist("trav:wrap:" + wrap)
